@@ -185,7 +185,7 @@ class Fn:
             if b["t"][0] != "ret":
                 continue
             for s in reversed(b["s"]):
-                if s[0] == "D" and s[1][0] == 1:
+                if s[0] == "D":
                     k = s[3]
                     if k in arms and k >= 3:
                         resume[bi] = arms[k]
